@@ -9,7 +9,9 @@
    connection; [OAnswer] processes ONE reconciliation answer, so a history also fixes how the
    answers interleave with everything else.  [OCreateHeld k s] is an environment creation stopped
    in the launch window (tasks accepted and in the roster, first TASK_RUNNING not delivered),
-   [ORun t] the (first) TASK_RUNNING of a task, [OLost t] a TASK_LOST for a task the master keeps.  [boot true] is the world after the very first
+   [ORun t] the (first) TASK_RUNNING of a task, [OLost t] a TASK_LOST for a task the master keeps.
+   [OLoseAnswers] loses the reconciliation answers in flight; [OCrashLost p k] / [OReconnectLost]
+   are a restart / reconnection whose answers are lost, followed by the automatic re-subscription.  [boot true] is the world after the very first
    SUBSCRIBE with failover enabled; [no_tamper] = nobody but the core writes the stored id.
    The KILL rule (states, tasks of the roster skipped or not) is regenerated from
    core/task/manager.go on every run (gen/Gen_Reconcile.v). *)
@@ -77,6 +79,42 @@ Theorem C18_restart_kill_calls : forall ops p k x,
   In (CKill (mt_id x)) (snd (hstep w (OCrash p k))).
 Proof. exact restart_kill_calls. Qed.
 Print Assumptions C18_restart_kill_calls.
+
+(* --- a lost reconciliation is repeated by the next subscription ----------------------------- *)
+
+(* EVERY (re)subscription is followed by the implicit reconciliation (reconcile_every_subscribed =
+   true is what the translator reads off the handler reconciliationCall installs in the SUBSCRIBED
+   chain: the RECONCILE call is under no condition - no latch, no counter).  So whatever happened
+   before - in particular the answers of earlier reconciliations LOST at any point ([OLoseAnswers]:
+   the connection dropped before they were delivered, or the RECONCILE call failed) - after any
+   (re)subscription [o] (restart, reconnection, or either of them with its own answers lost and
+   the automatic re-subscription: [OCrashLost], [OReconnectLost]) and whatever the life then does,
+   once the answers are processed everything alive at the master is in the roster: no task of a
+   previous life survives unowned. *)
+Theorem C18_lost_reconciliation_is_repeated : forall ops o ops',
+  no_tamper ops = true -> is_sub o = true -> forallb tame ops' = true ->
+  let w1 := fst (step (after (boot true) ops) o) in
+  let w2 := after w1 ops' in
+  w_pending w2 = [] ->
+  forall t, In t (w_master w2) -> mt_alive t = true -> in_roster (mt_id t) (w_roster w2) = true.
+Proof. exact resubscription_kills_orphans. Qed.
+Print Assumptions C18_lost_reconciliation_is_repeated.
+
+(* A restart whose first reconciliation is lost, at the quiescent point after the automatic
+   re-subscription and its answers: nothing is alive at the master. *)
+Theorem C18_restart_with_lost_reconciliation : forall ops p k,
+  no_tamper ops = true ->
+  let w2 := fst (hstep (after (boot true) ops) (OCrashLost p k)) in
+  (forall t, In t (w_master w2) -> mt_alive t = false) /\ w_roster w2 = [] /\ w_envs w2 = [].
+Proof. exact restart_lost_quiescent. Qed.
+Print Assumptions C18_restart_with_lost_reconciliation.
+
+(* The two compound operations of the harness are such histories. *)
+Theorem C18_lost_operations_are_histories : forall w p k,
+  step w (OCrashLost p k) = run w [OCrash p k; OLoseAnswers; OReconnect] /\
+  step w OReconnectLost = run w [OReconnect; OLoseAnswers; OReconnect].
+Proof. intros w p k. split; [exact (crash_lost_is_run w p k)|exact (reconnect_lost_is_run w)]. Qed.
+Print Assumptions C18_lost_operations_are_histories.
 
 (* --- ... and only that: owned tasks are never killed by reconciliation --------------------- *)
 
@@ -169,6 +207,14 @@ Example C18_nonvacuous :
    map rt_active (w_roster l) = [true; false] /\ owned l 1 = true /\
    kills_of (snd (hstep l OReconnect)) = [] /\
    map rt_active (w_roster (fst (hstep l OReconnect))) = [true; true]) /\
+  (* a restart whose reconciliation is lost: two SUBSCRIBEs, two RECONCILEs, the leftovers killed by
+     the second; with the answers lost and NO further subscription they would survive *)
+  (let v := after (boot true) [OCreate 2] in
+   subs_of (snd (hstep v (OCrashLost PIdle 0))) = [(true, 1); (true, 1)] /\
+   recs_of (snd (hstep v (OCrashLost PIdle 0))) = 2 /\
+   kills_of (snd (hstep v (OCrashLost PIdle 0))) = [0; 1] /\
+   map mt_alive (w_master (after v [OCrash PIdle 0; OLoseAnswers])) = [true; true] /\
+   w_pending (after v [OCrash PIdle 0; OLoseAnswers]) = []) /\
   (* a restart in the launch window kills the held tasks *)
   kills_of (snd (hstep (after (boot true) [OCreateHeld 2 mesos_starting]) (OCrash PIdle 0))) = [0; 1] /\
   (let v := after (boot true) [OCreate 2; OStart 0] in
